@@ -202,6 +202,7 @@ pub fn check(case: &TreeCase) -> Verdict {
     rep.label_if(b.kids_behind_ref, "kids-behind-reference");
     rep.label_if(!sorted, "page-ids-out-of-page-order");
     rep.label_if(b.pages.is_empty(), "no-pages");
+    rep.label_if(b.pages.len() >= 257, "pages>=257");
     rep.nontrivial = b.depth >= 3 && (b.empty_intermediate || b.kids_behind_ref);
     Ok(rep)
 }
@@ -383,13 +384,27 @@ pub fn tree_strategy(max_depth: usize) -> BoxedStrategy<TreeCase> {
     // a spine of `depth` nested Pages nodes, each with small sub-trees before and after the spine child
     let level = (vec(small_node(), 0..3), vec(small_node(), 0..3), prop::bool::weighted(0.25));
     let depth = prop_oneof![5 => 1usize..6, 3 => 6usize..=max_depth.min(40), 1 => max_depth.min(40)..=max_depth];
-    (depth.prop_flat_map(move |d| vec(level.clone(), d)), vec(small_node(), 0..4), any::<u64>(), 0u8..4)
-        .prop_map(|(spine, bottom, numbering_seed, extra)| {
+    // occasionally one level is very wide: a nested node followed by hundreds of sibling pages (fan-out beyond
+    // the depth-limit constant, so that a guard comparing the wrong quantity shows)
+    let wide = prop_oneof![12 => Just(None), 1 => (any::<u16>(), 250usize..330, any::<bool>()).prop_map(Some)];
+    (depth.prop_flat_map(move |d| vec(level.clone(), d)), vec(small_node(), 0..4), any::<u64>(), 0u8..4, wide)
+        .prop_map(|(spine, bottom, numbering_seed, extra, wide)| {
             let mut node = Node::Pages(bottom, false);
-            for (before, after, by_ref) in spine.into_iter().rev() {
+            let n_levels = spine.len();
+            for (li, (before, after, by_ref)) in spine.into_iter().rev().enumerate() {
                 let mut kids = before;
+                if let Some((slot, count, in_front)) = wide {
+                    if (slot as usize * n_levels) >> 16 == li && in_front {
+                        kids.extend(std::iter::repeat(Node::Page).take(count));
+                    }
+                }
                 kids.push(node);
                 kids.extend(after);
+                if let Some((slot, count, in_front)) = wide {
+                    if (slot as usize * n_levels) >> 16 == li && !in_front {
+                        kids.extend(std::iter::repeat(Node::Page).take(count));
+                    }
+                }
                 node = Node::Pages(kids, by_ref);
             }
             TreeCase { root: node, numbering_seed, extra }
